@@ -63,6 +63,8 @@ Ctx10(L, E, R) ==
    [src |-> "{{ [" \o L \o "][0] }}", out |-> E, c |-> "array-elem"],
    [src |-> "{{ [" \o L \o ", \"z\"] }}", out |-> E \o ", z", c |-> "array-print"],
    [src |-> "{{ [\"z\", " \o L \o "] }}", out |-> "z, " \o E, c |-> "array-print-last"],
+   [src |-> "{{ v = " \o L \o " }}{{ (v + \"x\").len() > 999 ? 1 : \"\" }}{{ (v + v).len() > 999 ? 1 : \"\" }}[{{ v }}]", out |-> "[" \o E \o "]", c |-> "stored-after-concat"],
+   [src |-> "@each(s in [" \o L \o "]){{ (s + \"!\").len() > 999 ? 1 : \"\" }}@end@each(s in [" \o L \o ", " \o L \o "]){{ t = s + \"!\" }}@end{{ v = " \o L \o " }}{{ w = v + \"y\" }}{{ v.raw() }}", out |-> R, c |-> "raw-after-concat"],
    [src |-> "{{ [" \o L \o "] }}", out |-> E, c |-> "array-print-alone"],
    [src |-> "{{ {k: " \o L \o "}.k }}", out |-> E, c |-> "object-value"],
    [src |-> "@if(true){{ " \o L \o " }}@end", out |-> E, c |-> "if-body"],
@@ -86,7 +88,7 @@ Cases10(lits) == OtherQuote10 \cup UNION {{[src |-> c.src, out |-> c.out, c |-> 
 \* The verdict for escaped contexts uses C10's own predicates (no raw angle bracket, every & starts an entity, quotes as
 \* written, unescaping gives the literal back), so that another entity spelling is not an alarm; `esc` is the
 \* specification's rendering, kept for diagnosis. raw() contexts must give exactly the original text.
-IsRaw(c) == c \in {"raw", "raw-var", "raw-elem", "raw-concat", "raw-twice"}
+IsRaw(c) == c \in {"raw", "raw-var", "raw-elem", "raw-concat", "raw-twice", "raw-after-concat"}
 Expect10(c) == IF IsRaw(c.c) THEN [kind |-> "out", out |-> c.out] ELSE [kind |-> "escaped", out |-> c.out, lit |-> c.lit]
 
 (* ================================ C13 ================================ *)
